@@ -16,8 +16,8 @@ RULE = (
     "0/1/2, more_out=True); positivity options off. Non-trivial = the network has at least one merge or "
     "bifurcation node (>=2 entering or >=2 leaving links) and all outputs are finite. Distinct = SHA-1 of the case."
 )
-BUDGET = {"quick": {"examples": 500, "shards": 4}, "thorough": {"examples": 10000, "shards": 16}}
-EXPECTED_LABELS = ("merge", "bifurcation", "1in-multi-out", "multi-in-multi-out", "interior-ramp", "self-loop",
+BUDGET = {"quick": {"examples": 500, "shards": 4}, "thorough": {"fuzz_runs": 3000, "examples": 10000, "shards": 16}}
+EXPECTED_LABELS = ("rollout", "merge", "bifurcation", "1in-multi-out", "multi-in-multi-out", "interior-ramp", "self-loop",
                    "origin:ideal", "origin:simp_unl", "engine:SX", "engine:MX", "compact:0", "compact:1", "compact:2")
 ASSUMPTIONS = ["tolerance 1e-9 x (sum of absolute values of the balance terms)"]
 RTOL = 1e-9
@@ -28,7 +28,7 @@ def cases(draw):
     sp = draw(gen_nets.specs())
     states = [draw(gen_nets.states(sp)) for _ in range(draw(st.integers(1, 2)))]
     comp = draw(st.one_of(st.none(), st.none(), st.fixed_dictionaries({"sym": st.sampled_from(["SX", "MX"]), "compact": st.integers(0, 2)})))
-    return {"spec": sp, "states": states, "compile": comp}
+    return {"spec": sp, "states": states, "compile": comp, "rollout": draw(st.booleans())}
 
 
 def strategy(tier):
@@ -135,6 +135,38 @@ def balance(ctx, sp, state, nxt, eng, q_rep=None, qo_rep=None):
     return finite
 
 
+def rollout(ctx, sp, state, nxt, built):
+    """Simulation loop: the next_states objects are fed back as initial conditions of a second step on the
+    same objects; the balance of that second step is checked against copies of the values taken before."""
+    import math
+
+    from lib.sut import NumpyEngine, np
+
+    state2 = {i: {v: list(x) for v, x in s_.items()} for i, s_ in state.items()}
+    for i, vs in nxt.items():
+        for var, arr in vs.items():
+            state2[i][var] = [float(x) for x in arr]
+    if not all(math.isfinite(x) for i in nxt for arr in state2[i].values() for x in arr if not math.isinf(x)):
+        return
+    ctx.label("rollout")
+    net, els, _ = built
+    ic = {}
+    for i, el in els.items():
+        d = {}
+        if el.next_states:
+            d.update(el.next_states)
+        for grp in (el.actions, el.disturbances):
+            if grp:
+                d.update(grp)
+        if d:
+            ic[el] = d
+    r = guarded(ctx, "numpy-rollout", lambda: net.step(init_conditions=ic, engine=NumpyEngine(), **S.pars_kwargs(sp)))
+    if crashed(r):
+        return
+    got2 = {i: {k: np.asarray(v, dtype=float).reshape(-1) for k, v in el.next_states.items()} for i, el in els.items() if el.next_states}
+    balance(ctx, sp, state2, got2, "numpy-rollout")
+
+
 def check_case(case, ctx):
     sp = case["spec"]
     feats = S.features(sp)
@@ -155,6 +187,8 @@ def check_case(case, ctx):
         got = guarded(ctx, "numpy-step", S.step_numpy, sp, state, None, None, built)
         if not crashed(got):
             finite &= balance(ctx, sp, state, got[0], "numpy")
+            if case.get("rollout") and state is case["states"][-1]:
+                rollout(ctx, sp, state, got[0], built)
         if F is not None:
             def call():
                 res = F(*lay.args(comp["compact"], state))
